@@ -14,27 +14,67 @@ DBL_MAX = 1.7976931348623157e+308
 
 # ----------------------------------------------------------------------------------------
 # numbers
+#
+# rapidjson (as the library uses it, without kParseFullPrecisionFlag) parses a decimal number exactly only
+# on its fast path: at most 15 significant digits and a small decimal exponent. Every number written to a
+# world file therefore has at most 12 significant decimal digits, so that the double the library sees is
+# the double the truth record holds (the exact oracles depend on it).
+
+def R(x):
+    return float('%.12g' % x)
+
+
+def U(rng, a, b):
+    return R(rng.uniform(a, b))
+
+
+def rnd(obj):
+    """round every float of a nested structure to 12 significant digits (tuples stay tuples)"""
+    if isinstance(obj, float):
+        if obj != obj or abs(obj) >= 1e300:
+            return obj
+        return R(obj)
+    if isinstance(obj, dict):
+        return {k: rnd(v) for k, v in obj.items()}
+    if isinstance(obj, list):
+        return [rnd(v) for v in obj]
+    if isinstance(obj, tuple):
+        return tuple(rnd(v) for v in obj)
+    return obj
+
+
+def check_exact_decimals(obj, path=''):
+    """raises if a float in a document would not survive rapidjson's fast path"""
+    if isinstance(obj, float):
+        if obj == obj and abs(obj) != float('inf') and float('%.15g' % obj) != obj:
+            raise ValueError('number with more than 15 significant digits at %s: %r' % (path, obj))
+    elif isinstance(obj, dict):
+        for k, v in obj.items():
+            check_exact_decimals(v, path + '/' + k)
+    elif isinstance(obj, (list, tuple)):
+        for i, v in enumerate(obj):
+            check_exact_decimals(v, path + '/' + str(i))
 
 def exact(rng, lo, hi, bits=6):
     """a number in [lo,hi] with at most `bits` significant bits times a power of two"""
     if lo == hi:
         return float(lo)
     for _ in range(100):
-        x = rng.uniform(lo, hi)
+        x = U(rng, lo, hi)
         if x == 0:
             return 0.0
         m, e = math.frexp(x)
         m = round(m * (1 << bits)) / float(1 << bits)
         y = math.ldexp(m, e)
-        if lo <= y <= hi:
+        if lo <= y <= hi and float('%.15g' % y) == y:
             return y
-    return float(lo)
+    return R(lo)
 
 
 def num(rng, lo, hi, p_exact=0.5):
     if rng.random() < p_exact:
         return exact(rng, lo, hi, rng.choice((3, 6, 10)))
-    return rng.uniform(lo, hi)
+    return U(rng, lo, hi)
 
 
 def rint(rng, lo, hi, step):
@@ -128,21 +168,21 @@ def adiabat(g, depth):
 
 def star_polygon(rng, cx, cy, rmin, rmax, n, clockwise=False, exact_coords=False):
     """random simple (star shaped) polygon around (cx,cy)"""
-    angles = sorted(rng.uniform(0, 2 * PI) for _ in range(n))
+    angles = sorted(U(rng, 0, 2 * PI) for _ in range(n))
     # avoid nearly coincident directions
     for _ in range(50):
         ok = all((angles[(i + 1) % n] - angles[i]) % (2 * PI) > 0.15 for i in range(n)) and \
             max((angles[(i + 1) % n] - angles[i]) % (2 * PI) for i in range(n)) < PI - 0.1
         if ok:
             break
-        angles = sorted(rng.uniform(0, 2 * PI) for _ in range(n))
+        angles = sorted(U(rng, 0, 2 * PI) for _ in range(n))
     else:
         angles = [2 * PI * i / n + 0.1 for i in range(n)]
     pts = []
     for a in angles:
-        r = rng.uniform(rmin, rmax)
-        x = cx + r * math.cos(a)
-        y = cy + r * math.sin(a)
+        r = U(rng, rmin, rmax)
+        x = R(cx + r * math.cos(a))
+        y = R(cy + r * math.sin(a))
         if exact_coords:
             q = 2.0 ** math.floor(math.log2(rmax) - 6)
             x = round(x / q) * q
@@ -187,8 +227,8 @@ def point_in_poly_interior(rng, poly, margin_frac=0.02):
     x0, y0, x1, y1 = poly_bbox(poly)
     size = max(x1 - x0, y1 - y0)
     for _ in range(200):
-        x = rng.uniform(x0, x1)
-        y = rng.uniform(y0, y1)
+        x = U(rng, x0, x1)
+        y = U(rng, y0, y1)
         ins, d = poly_contains(poly, x, y)
         if ins and d > margin_frac * size:
             return x, y
@@ -210,7 +250,7 @@ def _op(rng, ops, p_replace=0.6):
 
 def rot_matrix(rng):
     """a proper rotation matrix from random z-x-z Euler angles"""
-    a, b, c = (rng.uniform(0, 2 * PI) for _ in range(3))
+    a, b, c = (U(rng, 0, 2 * PI) for _ in range(3))
     ca, sa, cb, sb, cc, sc = math.cos(a), math.sin(a), math.cos(b), math.sin(b), math.cos(c), math.sin(c)
     return [[ca * cc - cb * sa * sc, -ca * sc - cb * cc * sa, sa * sb],
             [cc * sa + ca * cb * sc, ca * cb * cc - sa * sc, -ca * sb],
@@ -352,13 +392,13 @@ def gen_ridges(rng, ctx, f):
     x0, y0, x1, y1 = f['_bbox']
     w = max(x1 - x0, y1 - y0)
     side = rng.choice([-1, 1])
-    rx = (x0 - rng.uniform(0.05, 0.6) * w) if side < 0 else (x1 + rng.uniform(0.05, 0.6) * w)
-    ya = y0 - rng.uniform(0.1, 0.5) * w
-    yb = y1 + rng.uniform(0.1, 0.5) * w
+    rx = (x0 - U(rng, 0.05, 0.6) * w) if side < 0 else (x1 + U(rng, 0.05, 0.6) * w)
+    ya = y0 - U(rng, 0.1, 0.5) * w
+    yb = y1 + U(rng, 0.1, 0.5) * w
     if rng.random() < 0.6:
-        return [[[rx, ya], [rx + rng.uniform(-0.1, 0.1) * w, yb]]]
+        return [[[rx, ya], [rx + U(rng, -0.1, 0.1) * w, yb]]]
     ym = 0.5 * (ya + yb)
-    rx2 = rx + side * rng.uniform(0.05, 0.3) * w
+    rx2 = rx + side * U(rng, 0.05, 0.3) * w
     return [[[rx, ya], [rx, ym]], [[rx2, ym], [rx2, yb]]]
 
 
@@ -412,7 +452,7 @@ def gen_grains_model(rng, ctx, ftype, f, ncomp, random_models=False):
         if rng.random() < 0.5:
             m['rotation matrices'] = [rot_matrix(rng) for _ in comps]
         else:
-            m['Euler angles z-x-z'] = [[rng.uniform(0, 360), rng.uniform(0, 180), rng.uniform(0, 360)] for _ in comps]
+            m['Euler angles z-x-z'] = [[U(rng, 0, 360), U(rng, 0, 180), U(rng, 0, 360)] for _ in comps]
         m['grain sizes'] = [num(rng, 0.01, 1.0) if rng.random() < 0.7 else -1 for _ in comps]
     else:
         m['grain sizes'] = [num(rng, 0.01, 1.0) if rng.random() < 0.5 else -1 for _ in comps]
@@ -423,7 +463,7 @@ def gen_grains_model(rng, ctx, ftype, f, ncomp, random_models=False):
             if rng.random() < 0.5:
                 m['basis rotation matrices'] = [rot_matrix(rng) for _ in comps]
             elif rng.random() < 0.5:
-                m['basis Euler angles z-x-z'] = [[rng.uniform(0, 360), rng.uniform(0, 180), rng.uniform(0, 360)] for _ in comps]
+                m['basis Euler angles z-x-z'] = [[U(rng, 0, 360), U(rng, 0, 180), U(rng, 0, 360)] for _ in comps]
     gen_range(rng, ftype, f, m, 0.3)
     return m
 
@@ -455,17 +495,17 @@ def region(rng, ctx, opts):
     """centre and size (file units) of a feature footprint"""
     if ctx.sph:
         if opts.get('dateline') or rng.random() < 0.25:
-            cx = rng.choice([-1, 1]) * rng.uniform(170, 180)
+            cx = rng.choice([-1, 1]) * U(rng, 170, 180)
         else:
-            cx = rng.uniform(-170, 170)
-        cy = rng.uniform(-55, 55)
-        size = rng.uniform(3, 14)
+            cx = U(rng, -170, 170)
+        cy = U(rng, -55, 55)
+        size = U(rng, 3, 14)
     else:
         c = opts.get('centre')
         spread = opts.get('spread', 1.0e6)
-        cx = (c[0] if c else 0.0) + rng.uniform(-spread, spread)
-        cy = (c[1] if c else 0.0) + rng.uniform(-spread, spread)
-        size = rng.uniform(2e5, 9e5)
+        cx = (c[0] if c else 0.0) + U(rng, -spread, spread)
+        cy = (c[1] if c else 0.0) + U(rng, -spread, spread)
+        size = U(rng, 2e5, 9e5)
     return cx, cy, size
 
 
@@ -501,11 +541,11 @@ def gen_plume(rng, ctx, idx, ncomp, opts, where=None):
     for _ in range(n):
         depths.append(d)
         d += num(rng, 5e4, 4e5)
-    coords = [[cx + rng.uniform(-0.3, 0.3) * size, cy + rng.uniform(-0.3, 0.3) * size] for _ in range(n)]
+    coords = [[cx + U(rng, -0.3, 0.3) * size, cy + U(rng, -0.3, 0.3) * size] for _ in range(n)]
     f = {'model': 'plume', 'name': 'f%d' % idx, 'coordinates': coords, 'cross section depths': depths,
          'semi-major axis': [num(rng, 0.2, 0.7) * size for _ in range(n)],
          'eccentricity': [num(rng, 0.0, 0.9) for _ in range(n)],
-         'rotation angles': [rng.uniform(0, 360) if rng.random() < 0.7 else rint(rng, 0, 360, 15) for _ in range(n)],
+         'rotation angles': [U(rng, 0, 360) if rng.random() < 0.7 else rint(rng, 0, 360, 15) for _ in range(n)],
          'min depth': d0}
     d1 = DBL_MAX
     if rng.random() < 0.8:
@@ -525,30 +565,30 @@ def gen_plume(rng, ctx, idx, ncomp, opts, where=None):
 
 def gen_trench(rng, ctx, cx, cy, size, n, max_bend_deg=50.0):
     """polyline of n points through (cx,cy), total length ~ size (file units)"""
-    az = rng.uniform(0, 2 * PI)
+    az = U(rng, 0, 2 * PI)
     seg = size / max(1, n - 1)
     pts = [(0.0, 0.0)]
     a = az
     for _ in range(n - 1):
-        sl = seg * rng.uniform(0.6, 1.2)
+        sl = seg * U(rng, 0.6, 1.2)
         pts.append((pts[-1][0] + sl * math.cos(a), pts[-1][1] + sl * math.sin(a)))
-        a += math.radians(rng.uniform(-max_bend_deg, max_bend_deg))
+        a += math.radians(U(rng, -max_bend_deg, max_bend_deg))
     mx = sum(p[0] for p in pts) / n
     my = sum(p[1] for p in pts) / n
-    return [(cx + p[0] - mx, cy + p[1] - my) for p in pts]
+    return [(R(cx + p[0] - mx), R(cy + p[1] - my)) for p in pts]
 
 
 def gen_segments(rng, nseg, total_len, thick, fault=False, vary=True):
     segs = []
-    a0 = rng.uniform(20, 70) if not fault else rng.uniform(50, 130)
+    a0 = U(rng, 20, 70) if not fault else U(rng, 50, 130)
     for i in range(nseg):
-        a1 = a0 if (not vary or rng.random() < 0.4) else max(5.0, min(175.0, a0 + rng.uniform(-30, 30)))
-        t0 = thick if rng.random() < 0.6 else thick * rng.uniform(0.6, 1.0)
-        t1 = t0 if rng.random() < 0.6 else thick * rng.uniform(0.6, 1.0)
-        s = {'length': total_len / nseg * rng.uniform(0.7, 1.3), 'thickness': [t0] if t0 == t1 and rng.random() < 0.5 else [t0, t1], 'angle': [a0] if a0 == a1 and rng.random() < 0.5 else [a0, a1]}
+        a1 = a0 if (not vary or rng.random() < 0.4) else max(5.0, min(175.0, a0 + U(rng, -30, 30)))
+        t0 = thick if rng.random() < 0.6 else thick * U(rng, 0.6, 1.0)
+        t1 = t0 if rng.random() < 0.6 else thick * U(rng, 0.6, 1.0)
+        s = {'length': total_len / nseg * U(rng, 0.7, 1.3), 'thickness': [t0] if t0 == t1 and rng.random() < 0.5 else [t0, t1], 'angle': [a0] if a0 == a1 and rng.random() < 0.5 else [a0, a1]}
         if not fault and rng.random() < 0.3:
-            tt = thick * rng.uniform(-0.3, 0.2)
-            s['top truncation'] = [tt] if rng.random() < 0.5 else [tt, thick * rng.uniform(-0.3, 0.2)]
+            tt = thick * U(rng, -0.3, 0.2)
+            s['top truncation'] = [tt] if rng.random() < 0.5 else [tt, thick * U(rng, -0.3, 0.2)]
         segs.append(s)
         a0 = a1
     return segs
@@ -568,7 +608,7 @@ def gen_line_feature(rng, ctx, ftype, idx, ncomp, opts, where=None):
     dy = tr[-1][1] - tr[0][1]
     L = math.hypot(dx, dy) or 1.0
     side = rng.choice([-1, 1])
-    far = size * rng.uniform(2, 5)
+    far = size * U(rng, 2, 5)
     dip = [0.5 * (tr[0][0] + tr[-1][0]) - side * dy / L * far, 0.5 * (tr[0][1] + tr[-1][1]) + side * dx / L * far]
     if ctx.sph:
         dip[1] = max(-89.0, min(89.0, dip[1]))
@@ -592,7 +632,7 @@ def gen_line_feature(rng, ctx, ftype, idx, ncomp, opts, where=None):
     # optionally push some models down into segments / sections
     if opts.get('sections', True) and n >= 2 and rng.random() < 0.35:
         k = rng.randrange(n)
-        sec = {'coordinate': k, 'segments': gen_segments(rng, nseg, total_len * rng.uniform(0.7, 1.2), thick * rng.uniform(0.7, 1.2), fault)}
+        sec = {'coordinate': k, 'segments': gen_segments(rng, nseg, total_len * U(rng, 0.7, 1.2), thick * U(rng, 0.7, 1.2), fault)}
         if rng.random() < 0.5:
             sec['temperature models'] = [gen_temperature_model(rng, ctx, ftype, f, ['uniform', 'linear', 'adiabatic'])]
         f['sections'] = [sec]
@@ -616,10 +656,13 @@ def strip(obj):
 
 def gen_feature(rng, ctx, ftype, idx, ncomp, opts, where=None):
     if ftype in AREA:
-        return gen_area_feature(rng, ctx, ftype, idx, ncomp, opts, where)
-    if ftype == 'plume':
-        return gen_plume(rng, ctx, idx, ncomp, opts, where)
-    return gen_line_feature(rng, ctx, ftype, idx, ncomp, opts, where)
+        f, t = gen_area_feature(rng, ctx, ftype, idx, ncomp, opts, where)
+    elif ftype == 'plume':
+        f, t = gen_plume(rng, ctx, idx, ncomp, opts, where)
+    else:
+        f, t = gen_line_feature(rng, ctx, ftype, idx, ncomp, opts, where)
+    # the same rounding on both sides keeps file and truth record identical
+    return rnd(f), rnd(t)
 
 
 ALL_TYPES = ['continental plate', 'oceanic plate', 'mantle layer', 'plume', 'subducting plate', 'fault']
@@ -646,7 +689,7 @@ def gen_world(rng, opts=None):
         where = None
         if opts.get('overlap', True) and rng.random() < 0.8:
             jitter = 0.5 * base[2]
-            where = (base[0] + rng.uniform(-jitter, jitter), base[1] + rng.uniform(-jitter, jitter), base[2] * rng.uniform(0.6, 1.2))
+            where = (base[0] + U(rng, -jitter, jitter), base[1] + U(rng, -jitter, jitter), base[2] * U(rng, 0.6, 1.2))
             if ctx.sph:
                 where = (where[0], max(-70.0, min(70.0, where[1])), where[2])
         f, t = gen_feature(rng, ctx, ftype, i, ncomp, opts, where)
@@ -659,17 +702,17 @@ def gen_world(rng, opts=None):
     cs = None
     if cross:
         if ctx.sph:
-            a = (base[0] - base[2], base[1] - 0.5 * base[2] * rng.uniform(-1, 1))
-            b = (base[0] + base[2], base[1] + 0.5 * base[2] * rng.uniform(-1, 1))
+            a = (base[0] - base[2], base[1] - 0.5 * base[2] * U(rng, -1, 1))
+            b = (base[0] + base[2], base[1] + 0.5 * base[2] * U(rng, -1, 1))
             a = (max(-360.0, min(360.0, a[0])), max(-80.0, min(80.0, a[1])))
             b = (max(-360.0, min(360.0, b[0])), max(-80.0, min(80.0, b[1])))
         else:
-            ang = rng.uniform(0, 2 * PI)
+            ang = U(rng, 0, 2 * PI)
             a = (base[0] - base[2] * math.cos(ang), base[1] - base[2] * math.sin(ang))
             b = (base[0] + base[2] * math.cos(ang), base[1] + base[2] * math.sin(ang))
         if rng.random() < 0.5:
             a, b = b, a
-        cs = [list(a), list(b)]
+        cs = rnd([list(a), list(b)])
         doc['cross section'] = cs
     if opts.get('seed_entry') is not None:
         doc['random number seed'] = opts['seed_entry']
@@ -678,6 +721,7 @@ def gen_world(rng, opts=None):
 
 
 def dumps(doc):
+    check_exact_decimals(doc)
     return json.dumps(doc, indent=1, allow_nan=True)
 
 
@@ -697,12 +741,12 @@ def sample_points(rng, world, n, p_inside=0.6):
             pts.append(point_in_feature(rng, ctx, ft))
         else:
             s = base[2] * 2.5
-            sx = base[0] + rng.uniform(-s, s)
-            sy = base[1] + rng.uniform(-s, s)
+            sx = base[0] + U(rng, -s, s)
+            sy = base[1] + U(rng, -s, s)
             if ctx.sph:
                 sy = max(-89.0, min(89.0, sy))
                 sx = ((sx + 180.0) % 360.0) - 180.0
-            d = rng.choice([0.0, rng.uniform(0, 8e5), rng.uniform(0, 2e5)])
+            d = rng.choice([0.0, U(rng, 0, 8e5), U(rng, 0, 2e5)])
             pts.append((sx, sy, d))
     return pts
 
@@ -717,24 +761,24 @@ def point_in_feature(rng, ctx, ft):
     d1 = ft['d1'] if ft['d1'] < 1e300 else d0 + 4e5
     if ft['type'] in AREA:
         x, y = point_in_poly_interior(rng, ft['poly'])
-        d = rng.uniform(d0, d1) if rng.random() < 0.9 else rng.choice([d0, d1])
+        d = U(rng, d0, d1) if rng.random() < 0.9 else rng.choice([d0, d1])
         return (wrap_lon(ctx, x), y, d)
     if ft['type'] == 'plume':
         depths = ft['depths']
-        d = rng.uniform(d0, min(d1, depths[-1] + 2e5))
+        d = U(rng, d0, min(d1, depths[-1] + 2e5))
         # centre at this depth
         i = 0
         while i < len(depths) - 1 and depths[i + 1] < d:
             i += 1
         c = ft['coords'][min(i, len(depths) - 1)]
         a = ft['a'][min(i, len(depths) - 1)]
-        r = a * rng.uniform(0, 0.8) * (0.4 if d < depths[0] else 1.0)
-        ang = rng.uniform(0, 2 * PI)
+        r = a * U(rng, 0, 0.8) * (0.4 if d < depths[0] else 1.0)
+        ang = U(rng, 0, 2 * PI)
         return (wrap_lon(ctx, c[0] + r * math.cos(ang)), c[1] + r * math.sin(ang), d)
     # line feature: local frame
     tr = ft['trench']
     k = rng.randrange(len(tr) - 1)
-    u = rng.uniform(0.02, 0.98)
+    u = U(rng, 0.02, 0.98)
     px = tr[k][0] + u * (tr[k + 1][0] - tr[k][0])
     py = tr[k][1] + u * (tr[k + 1][1] - tr[k][1])
     dx = tr[k + 1][0] - tr[k][0]
@@ -745,11 +789,11 @@ def point_in_feature(rng, ctx, ft):
     if (ft['dip'][0] - px) * nx + (ft['dip'][1] - py) * ny < 0:
         nx, ny = -nx, -ny
     th = math.radians(ft['angle0'])
-    s = rng.uniform(0, ft['length'] * 0.9)
+    s = U(rng, 0, ft['length'] * 0.9)
     if ft['type'] == 'fault':
-        nn = rng.uniform(-0.5, 0.5) * ft['thickness']
+        nn = U(rng, -0.5, 0.5) * ft['thickness']
     else:
-        nn = rng.uniform(0.02, 0.98) * ft['thickness']
+        nn = U(rng, 0.02, 0.98) * ft['thickness']
     h = s * math.cos(th) - nn * math.sin(th)
     v = s * math.sin(th) + nn * math.cos(th)
     unit = ctx.unit()
